@@ -13,7 +13,7 @@ D = decimal.Decimal
 ASSUMPTIONS = [
     'the un-pivoted aggregate result fed to the model is the implementation\'s own result of the same query without PIVOT BY (that part is C02/C03)',
     'column names are compared after rendering the model\'s (key, column) header entries with Python str() as the executor does',
-    'translator tie (C15_source_pivot): only the statements `pivoted = []` .. `return columns, pivoted` of the EvalPivot branch are translated (sort, groupby, slice assignment; library semantics in coq/Model/PrimsExec.v, out[lo:hi] = vals as "stmt:setslice"); the statements computing keys, `other` (a lambda) and the header (set comprehension, f-strings, itertools.product) are outside the PyMini fragment: the key list enters as the model\'s pivot_keys, `other` as an opaque callable assumed to return the remaining columns',
+    'translator tie (C15_source_pivot): the WHOLE function execute_query is translated (rules W1-W7 of src_exec.py: set comprehension, sorted(key=lambda) as "sorted_by", tuple patterns in comprehensions, isinstance, raise, the lambda `other` inlined at its calls - sound because the locals it captures are assigned once, which the translator checks); library semantics in coq/Model/PrimsExec.v: a set is its distinct members in first-occurrence order (CPython iterates in hash order; the only use sorts it by a key order whose ties are ==), f-strings are NOT interpreted (a name is the record of its parts), objects are the tuples of their fields (EvalQuery / EvalPivot / Column recognised by arity), out[lo:hi] = vals is "stmt:setslice"; execute_select and the class Column are opaque callables',
 ]
 KEYTYPES = [T_INT, T_STR, T_DATE, T_DEC, T_BOOL]
 
